@@ -93,7 +93,9 @@ def h_inner(t, part):
         if part.get('manager') == 'pubsub':
             from harness import c07
             kw['client_manager'] = c07.make_manager(asyncio_, [])
-        w = worlds.SWorld(asyncio_, async_handlers=False, always_connect=part['always_connect'], **kw)
+        w = worlds.SWorld(asyncio_, async_handlers=part.get('async_handlers', False), always_connect=part['always_connect'], **kw)
+        import socketio.async_server as _as
+        held0 = len(_as.task_reference_holder)      # module-level set that keeps background handler tasks alive
         for ns in ('/', '/a'):
             w.s.on('connect', mk('connect'), namespace=ns)
             w.s.on('ev', mk('event', 5), namespace=ns)
@@ -207,6 +209,10 @@ def h_inner(t, part):
     by_after = (sorted(w.s.rooms(b_sid)), w.s.manager.is_connected(b_sid, '/'))
     if by_after != by_before:
         return Fail('residue:bystander-changed', '%r -> %r' % (by_before, by_after))
+    if len(_as.task_reference_holder) != held0:
+        return Fail('residue:task_reference_holder:%s' % ('handler-raised:%s' % inv['raised'] if inv['raised'] else 'no-fault'),
+                    '%d finished handler tasks (with their payloads and tracebacks) are still referenced by '
+                    'socketio.async_server.task_reference_holder' % (len(_as.task_reference_holder) - held0))
     fault_before = inv['raised']
     inv['armed'] = False
     w.lose('e1')
@@ -226,6 +232,8 @@ def parts(tier):
     # the same lives on a host of a pub/sub cluster (the claim is made for the host that owns the client)
     out += [{'async': a, 'always_connect': ac, 'n': n - 1, 'first': f, 'manager': 'pubsub'}
             for a in (False, True) for ac in (False, True) for f in range(len(OPS))]
+    # handlers run as background tasks (async_handlers=True, the default of the library): nothing keeps the finished tasks
+    out += [{'async': True, 'always_connect': False, 'n': 2, 'first': f, 'async_handlers': True} for f in range(len(OPS))]
     # a Socket.IO packet behind the engine.io CLOSE in the last polling payload
     out += [{'async': a, 'always_connect': False, 'n': 1, 'first': f, 'late': lt}
             for a in (False, True) for lt in ('connect', 'binary-header', 'event') for f in (0, 4)]
@@ -247,7 +255,7 @@ META = dict(
                      'bystander in a room on /' % (OPS,),
             'thorough': 'same with 4 operations'},
     outside=['heap-size measurement (the memory clause is claimed as state equality with a fresh server)',
-             'pub/sub managers beyond lives of n-1 operations on the owning host', 'async_handlers=True (background handlers; the cleanup path is the same)'],
+             'pub/sub managers beyond lives of n-1 operations on the owning host', 'async_handlers=True on the threaded server (the asyncio server has lives of 2 operations with background handler tasks)'],
     stubs=['engine.io server -> FakeEio/FakeAEio (contains exceptions of the three callbacks like engineio/server.py:445-471)',
            'JSON text -> TokJson', 'asyncio -> vf.miniloop (FIFO)'],
     assumptions=['a raising handler raises an Exception subclass or (asyncio, coroutine handlers) asyncio.CancelledError', 'at most one handler invocation raises per life'],
